@@ -761,6 +761,6 @@ FINDINGS = {
 
 ORACLES = [
     Oracle("dict_json_roundtrip", oracle_gen, oracle_check, covered=covered, from_ops=("dict.roundtrip", "dict.enc"), adapt=oracle_adapt),
-    Oracle("shared_context_roundtrip", gen_shared, oracle_shared_check, from_ops=("c04.shared",)),
     Oracle("rich_types_roundtrip", oracle_rich_gen, oracle_rich_check, covered=covered_rich, from_ops=("c04.e2e",)),
+    Oracle("shared_context_roundtrip", gen_shared, oracle_shared_check, from_ops=("c04.shared",)),
 ]
